@@ -141,7 +141,7 @@ func init() {
 		case "aead-tamper":
 			p.aeadTamper = v != 0
 		case "decode-arbitrary":
-			p.decodeArb = v != 0
+			p.decodeArbOff = v == 0
 		default:
 			unsup("vOpt %s", name)
 		}
